@@ -6,7 +6,10 @@
      commit x   — x builds a new counterparty commitment (with the updates it newly announces)
      sendRaa x  — x releases the revoke_and_ack it owes
      recv y     — y processes the oldest undelivered message of the peer→y stream (FIFO)
-   so that every interleaving of the two FIFO streams is an event list. No Mathlib. -/
+     disconnect — the connection drops: everything on the wire is lost, both nodes mark the channel paused
+     reest y    — y processes the peer's channel_reestablish and schedules its retransmissions
+   so that every interleaving of the two FIFO streams, with disconnections at any point, is an event list.
+   No Mathlib. -/
 import LdkModel.Generated.HtlcTables
 namespace Ldk.Chan
 
@@ -52,6 +55,7 @@ structure Node where
   csRecv : Nat            -- INITIAL_COMMITMENT_NUMBER - holder commitment number
   raaSent : Nat
   raaRecv : Nat
+  paused : Bool           -- ChannelState PEER_DISCONNECTED (set on disconnect, cleared by channel_reestablish)
   deriving DecidableEq, Repr, Inhabited
 
 structure Sys where
@@ -72,7 +76,7 @@ structure Sys where
 
 def Node.init (v : Nat) : Node :=
   { valueToSelf := v, inb := [], outb := [], awaitingRaa := false, owesRaa := 0, nextOutId := 0, nextInId := 0,
-    csSent := 0, csRecv := 0, raaSent := 0, raaRecv := 0 }
+    csSent := 0, csRecv := 0, raaSent := 0, raaRecv := 0, paused := false }
 
 def Sys.init (va vb : Nat) : Sys :=
   { a := Node.init va, b := Node.init vb, qab := [], qba := [], pendA := [], pendB := [], needRaaA := 0, needRaaB := 0, total := va + vb, agreed := true }
@@ -112,6 +116,10 @@ inductive Ev where
   | release (x : Bool)
   | sendRaa (x : Bool)
   | recv (y : Bool)
+  /-- peer_disconnected on both nodes; messages on the wire are lost -/
+  | disconnect
+  /-- y processes the peer's channel_reestablish (after a reconnection) -/
+  | reest (y : Bool)
   deriving Repr, Inhabited
 
 def setIn (l : List InHtlc) (id : Nat) (f : InState → InState) : List InHtlc :=
@@ -175,23 +183,59 @@ def Node.onMsg (n : Node) (total : Nat) (m : Msg) : Option (Node × Bool) :=
                      owesRaa := n.owesRaa + 1, csRecv := n.csRecv + 1 }, ok)
   | .raa => (n.onRaa).map (fun n' => (n', true))
 
+/-- mirrors FundedChannel::remove_uncommitted_htlcs_and_mark_paused: inbound RemoteAnnounced HTLCs are dropped
+    (and `next_counterparty_htlc_id` rewound), outbound RemoteRemoved revert to Committed; idempotent -/
+def Node.pause (n : Node) : Node :=
+  if n.paused then n else
+  { n with inb := n.inb.filter (fun h => h.st != .remoteAnnounced),
+           nextInId := n.nextInId - (n.inb.filter (fun h => h.st == .remoteAnnounced)).length,
+           outb := n.outb.map (fun (h : OutHtlc) => match h.st with | .remoteRemoved _ => { h with st := .committed } | _ => h),
+           paused := true }
+
+/-- mirrors get_last_commitment_update_for_send: the last update batch, regenerated from the current state -/
+def Node.lastBatch (n : Node) : List Msg :=
+  (n.outb.filter (fun h => h.st == .localAnnounced)).map (fun h => Msg.add h.id h.amt) ++
+  (n.inb.filter (fun h => h.st == .localRemoved true)).map (fun h => Msg.fulfill h.id) ++
+  (n.inb.filter (fun h => h.st == .localRemoved false)).map (fun h => Msg.fail h.id) ++
+  [Msg.cs (n.buildView false true)]
+
+/-- the batch to retransmit: the peer's `next_local_commitment_number` (= peerCsRecv + 1) says whether it has
+    processed our latest commitment_signed -/
+def Node.retrans (n : Node) (peerCsRecv : Nat) : List Msg :=
+  if n.csSent = peerCsRecv then [] else n.lastBatch
+
+/-- mirrors the retransmission decisions of FundedChannel::channel_reestablish; the peer's message carries
+    `next_local_commitment_number = peerCsRecv + 1` and `next_remote_commitment_number = peerRaaRecv`.
+    Result: the node (revoke_and_acks the peer has not seen are owed again) and the batch to retransmit. -/
+def Node.reestablish (n : Node) (peerCsRecv peerRaaRecv : Nat) : Option (Node × List Msg) :=
+  if !n.paused then none else
+  if !(decide (peerRaaRecv ≤ n.csRecv) && decide (n.csRecv ≤ peerRaaRecv + 1) &&
+       decide (peerCsRecv ≤ n.csSent) && decide (n.csSent ≤ peerCsRecv + 1)) then none else
+  some ({ n with paused := false, raaSent := peerRaaRecv, owesRaa := n.csRecv - peerRaaRecv },
+        n.retrans peerCsRecv)
+
 def step (s : Sys) (e : Ev) : Option Sys :=
   match e with
-  | .commit true adds fu fa => if s.pendA ≠ [] then none else
+  | .disconnect => some { s with a := s.a.pause, b := s.b.pause, qab := [], qba := [] }
+  | .reest true => (s.a.reestablish s.b.csRecv s.b.raaRecv).map (fun (n, p) => { s with a := n, pendA := p })
+  | .reest false => (s.b.reestablish s.a.csRecv s.a.raaRecv).map (fun (n, p) => { s with b := n, pendB := p })
+  | .commit true adds fu fa => if s.a.paused then none else if s.pendA ≠ [] then none else
       (s.a.commit adds fu fa).map (fun (n, ms) => { s with a := n, pendA := ms, needRaaA := s.a.raaSent + s.a.owesRaa })
-  | .commit false adds fu fa => if s.pendB ≠ [] then none else
+  | .commit false adds fu fa => if s.b.paused then none else if s.pendB ≠ [] then none else
       (s.b.commit adds fu fa).map (fun (n, ms) => { s with b := n, pendB := ms, needRaaB := s.b.raaSent + s.b.owesRaa })
-  | .release true => if s.pendA = [] || s.a.raaSent < s.needRaaA then none else some { s with qab := s.qab ++ s.pendA, pendA := [] }
-  | .release false => if s.pendB = [] || s.b.raaSent < s.needRaaB then none else some { s with qba := s.qba ++ s.pendB, pendB := [] }
-  | .sendRaa true => if s.a.owesRaa = 0 then none else
+  | .release true => if s.a.paused then none else if s.pendA = [] || s.a.raaSent < s.needRaaA then none else some { s with qab := s.qab ++ s.pendA, pendA := [] }
+  | .release false => if s.b.paused then none else if s.pendB = [] || s.b.raaSent < s.needRaaB then none else some { s with qba := s.qba ++ s.pendB, pendB := [] }
+  | .sendRaa true => if s.a.paused then none else if s.a.owesRaa = 0 then none else
       some { s with a := { s.a with owesRaa := s.a.owesRaa - 1, raaSent := s.a.raaSent + 1 }, qab := s.qab ++ [Msg.raa] }
-  | .sendRaa false => if s.b.owesRaa = 0 then none else
+  | .sendRaa false => if s.b.paused then none else if s.b.owesRaa = 0 then none else
       some { s with b := { s.b with owesRaa := s.b.owesRaa - 1, raaSent := s.b.raaSent + 1 }, qba := s.qba ++ [Msg.raa] }
   | .recv true =>   -- a receives from b
+      if s.a.paused then none else
       match s.qba with
       | [] => none
       | m :: rest => (s.a.onMsg s.total m).map (fun (n, ok) => { s with a := n, qba := rest, agreed := s.agreed && ok })
   | .recv false =>
+      if s.b.paused then none else
       match s.qab with
       | [] => none
       | m :: rest => (s.b.onMsg s.total m).map (fun (n, ok) => { s with b := n, qab := rest, agreed := s.agreed && ok })
